@@ -624,3 +624,14 @@ func (e *env) flushJSON() {
 }
 
 var _ = math.Abs
+
+// verifDir: the directory of the verification project (where corpus/ lives): VERIF_DIR, or the parent of the directory the harness binary is in
+func verifDir() string {
+	if p := os.Getenv("VERIF_DIR"); p != "" {
+		return p
+	}
+	if exe, err := os.Executable(); err == nil {
+		return filepath.Dir(filepath.Dir(exe))
+	}
+	return "/verif"
+}
